@@ -126,7 +126,8 @@ def scenarios(tier):
             T.append({'name': 'geom/%s/%s' % (g, 'x'.join(map(str, dims))), 'fn': 'pv.props.c10:geom',
                       'params': {'g': g, 'dims': list(dims)}, 'timeout': 30,
                       'validate': 2 if tier == 'quick' else 4, 'crosscheck': tier == 'thorough'})
-        for dims in dl[:3] if tier == 'quick' else dl:
+        nl = dl if tier == 'thorough' else {1: [(1,), (3,)], 2: [(1, 1), (2, 3), (3, 2)], 3: [(1, 1, 1), (2, 3, 2), (1, 2, 3)]}[nd]
+        for dims in nl:
             T.append({'name': 'NL/%s/%s' % (g, 'x'.join(map(str, dims))), 'fn': 'pv.props.c10:nl_form',
                       'params': {'g': g, 'dims': list(dims)}, 'timeout': 30, 'validate': 1})
         T.append({'name': 'labels/%s' % g, 'fn': 'pv.props.c10:labels', 'params': {'g': g}, 'validate': 1})
